@@ -39,6 +39,8 @@ REQUIRED_OBS = ["heartbeats_compared", "timeout_resets_predicted_and_seen",
                 "initialised_after_init_gave_up", "two_clients_in_one_process", "application_version_requests",
                 "tick_with_full_queue"]
 SOAK = True   # also judged by the whole-run monitors of the soak sessions (vf/soak.py)
+# (the instants this check judges are measured against non-eager task start-up: DESIGN 12)
+EAGER_OK = False
 BUDGET = {"quick": 100, "thorough": 1500}
 
 N = 12
